@@ -288,18 +288,19 @@ pub mod simplex {
         kani::cover!(true, "end");
     }
 
-    /// a coarse symbolic amplitude bound (|out| <= 8 follows from |grad| <= 8 and the falloff being in [0,1]):
-    /// far weaker than [-1, 1] but it holds for EVERY phase and refutes gross errors in the corner arithmetic
-    #[cfg(feature = "thorough")]
+    /// a symbolic amplitude bound for EVERY phase in [0, 65536): |out| <= 2.  The property's own bound
+    /// |out| <= 1 (true maximum ~0.99984) did not finish in 3000 s; 2 is decided in ~30 s and already
+    /// refutes any gross error in the corner / distance arithmetic at any phase.
     #[kani::proof]
-    pub fn coarse_amplitude_bound_any_phase() {
+    pub fn amplitude_bound_2_any_phase() {
         let p: f64 = kani::any();
         kani::assume(p >= 0.0 && p < 65536.0);
         let mut s = Phase::verif_from_state(StepProbe { step: 0.0, calls: 0 }, p).noise_simplex();
         let y = s.next_sample();
-        assert!(y >= -8.0 && y <= 8.0, "coarse bound");
+        assert!(y >= -2.0 && y <= 2.0, "|out| <= 2");
         kani::cover!(true, "end");
     }
+
     /// from any stored phase in [0, 65536): table indices stay in bounds (Kani's own bounds checks),
     /// the result is finite; 0 at integer coordinates. |out| <= 1 is NOT decided here.
     #[kani::proof]
